@@ -96,7 +96,8 @@ PROPS = {
                          'cascade, chain bound and diamond-freeness of every reachable graph are decided by the checker step17 '
                          '(pool_invb + cascadeb + parents_first) on every implementation/model trace, not by an inductive proof'),
     'C18': _spec('C18', 18, ['extraction_respects', 'gather_best_txs_respects', 'ratio_order_partial',
-                             'sorted_keys_ratio'],
+                             'sorted_keys_ratio', 'key_order_transitive', 'exec_insert_keeps_sorted_partial',
+                             'exec_remove_keeps_sorted_partial'],
                  partial='PARTIAL PROOF: limits, price, excluded contracts, conflict-freedom and removal proved for all states; ratio '
                          'order proved per pass assuming the executable list is sorted; sortedness and parents-first are checked '
                          'by pool_invb / extraction_okb on every trace'),
@@ -105,11 +106,11 @@ PROPS = {
                              'lru_put_no_eviction_partial'],
                  partial='PARTIAL PROOF + KNOWN FINDING K-C19-spent-lru-overflow: the handed-out-and-unsettled clause is refuted '
                          '(handed_out_inputs_rejected_refuted); the no-overflow ingredients are proved but not assembled over histories'),
-    'C20': _spec('C20', 20, ['late_preconf_noop', 'block_included_leave', 'rollback_clears',
+    'C20': _spec('C20', 20, ['late_preconf_noop', 'block_included_leave', 'rollback_clears', 'rollback_evicts_dependents',
                              'block_preserves_core'],
                  partial='PARTIAL PROOF: included transactions leave, rollback clears its traces, late preconfirmation is the '
-                         'identity, core invariant preserved; eviction of the dependents of a rolled back preconfirmation is checked '
-                         'by block_okb on every trace'),
+                         'identity, core invariant preserved, coin dependents of a rolled back preconfirmation evicted; the users of a '
+                         'contract it created and the marking of committed inputs as spent are checked by block_okb on every trace'),
     'C21': _spec('C21', 21, ['squeezed_exactly_once', 'leaves_exactly_once', 'expiry_reports_exactly',
                              'removed_exactly_once']),
 }
